@@ -21,7 +21,7 @@ C = {
  'C09': ('exploration', 'All C01-C08 evaluations in both precisions with identical exactly representable inputs, rescaled transport coefficients and amplitudes; each result within 2^6 u_p mag (first-order running error scale) of the 45-digit oracle, and the history variable acc of MasaTrace demands that the long double error distribution (in long double roundoffs) is not shifted above the double one (in double roundoffs).', 'TLA+ trace validation: 45-digit oracle + accuracy statistics history variable', '6 C09'),
  'C10': ('exploration', 'Trace validation with the history variable memo of Masa.tla: identical (precision, solution, parameters, overload, arguments) must give bit-identical results across arbitrary interleaved calls and across two processes running the phases in opposite order, and sweeps must read back unchanged parameters; seeded random histories on every non-fixture solution; thorough: plus the repository\'s own programs traced through the ld --wrap shim.', 'TLA+ trace validation (memo history variable) of randomized purity histories', '6 C10'),
  'C11': ('model_checking', 'The parameter store is the par/vec maps of Masa.tla. TLC enumerates the 1-handle bounded model (full alphabet, both self-test fixtures with their failing init_var) exhaustively; every transition is replayed on the real library and random store histories run on every catalogue entry; TLC validates every read-back against the specification map; evaluators-use-last-set-values is judged by the numeric oracle.', 'TLC bounded model + replay of every transition + trace validation', '6 C11'),
- 'C12': ('model_checking', 'TLC explores all interleavings of every API action over 2 handles (3 thorough) and over both precisions (quick: reduced alphabet Lite; thorough: full); Isolation, PrecIndependent, ReinitFresh, SelValid etc. are checked on the model, every transition is replayed on the real library and validated against the specification, plus long random multi-handle histories.', 'TLC bounded model + replay of every transition + trace validation', '6 C12'),
+ 'C12': ('model_checking', 'TLC explores all interleavings of every API action over 2 handles (3 thorough) and over both precisions (quick: reduced alphabet Lite; thorough: full); Isolation, PrecIndependent, ReinitFresh, SelValid etc. are checked on the model, every transition is replayed on the real library and validated against the specification, plus long random multi-handle histories; thorough: the three state invariants as an inductive invariant of the typed registry core (MasaRegistryInd.tla) discharged by Apalache for 8 handles and histories of any length.', 'TLC bounded model + replay of every transition + trace validation', '6 C12'),
  'C13': ('model_checking', 'MC_Names.tla enumerates every decoration (separator runs in up to two gaps x case masks) and every single-character negative of sampled base names and checks the normalisation against itself; every string is passed to masa_init and the outcome validated by Masa!Init/Resolve; random decorations and negatives of all 37 names.', 'TLC enumeration of name decorations + replay + trace validation', '6 C13'),
  'C14': ('model_checking', 'Finite domain enumerated completely: every printed name and every frozen catalogue entry, both precisions, every evaluator of the capability set; each call validated by Masa.tla actions (PrintId, Init, GetName, GetDim, Sanity, InitParam, Eval).', 'exhaustive enumeration of the catalogue, TLA+ trace validation', '6 C14'),
  'C15': ('exploration', 'All (solution, overload) pairs outside the capability set are enumerated (complete over pairs), arguments sampled, with a provider of the overload selected in the other precision; Masa!Eval demands -1.33, an ERROR tag, normal return, unchanged state.', 'enumeration of all unprovided overloads + TLA+ trace validation', '6 C15'),
